@@ -26,5 +26,5 @@ for t in tests:
     res.append(dict(name=t["name"], expect=t["expect"], got=got, ok=got == t["expect"], secs=round(time.time() - t0), first=first.strip()[:260]))
     print(json.dumps(res[-1]), flush=True)
     subprocess.run(["git", "-C", TREE, "checkout", "-q", "--", "."], check=True)
-json.dump(res, open(os.path.join(HERE, "selftest_result.json"), "w"), indent=1)
+json.dump(res, open(os.environ.get("VERIF_SELFTEST_OUT", os.path.join(HERE, "selftest_result.json")), "w"), indent=1)
 sys.exit(0 if all(r.get("ok") for r in res) else 1)
